@@ -21,11 +21,18 @@ import (
 // field "calibration": worst observed ratios): every constant is at least
 // twenty times the worst observation of the thorough tier, with an absolute
 // floor that a loaded machine does not reach.
+//
+//	worst observations (quick and thorough, seeds 1..5, loaded machine)
+//	  CPU    2.0 s for one call: DecodeStream of a 1 kB JBIG2 text region from the
+//	         repository's fuzz corpus (work bounded by the 8 MiB stream budget);
+//	         everything else stays below 0.15 s; 0.45 ms per KiB for inputs > 8 KiB
+//	  heap   7.7 MiB for one call (the same stream: limits.StreamBudgetBase);
+//	         95 KiB per KiB for inputs > 8 KiB
 const (
-	cpuFloorUs    = 4_000_000 // 4 s of CPU for any call
-	cpuPerKiBUs   = 40_000    // + 40 ms per KiB of input
-	allocFloorKiB = 128 << 10 // 128 MiB for any call
-	allocPerKiB   = 4096      // + 4 MiB per KiB of input (4 x limits.StreamBudgetMultiplier)
+	cpuFloorUs    = 10_000_000 // 10 s of CPU for any call (5 x the JBIG2 outlier, > 60 x the rest; below the watchdog)
+	cpuPerKiBUs   = 40_000     // + 40 ms per KiB of input (90 x)
+	allocFloorKiB = 160 << 10  // 160 MiB for any call (20 x limits.StreamBudgetBase)
+	allocPerKiB   = 4096       // + 4 MiB per KiB of input (4 x limits.StreamBudgetMultiplier, 40 x the worst observation)
 	maxLenKiB     = 65536
 )
 
@@ -63,7 +70,11 @@ func judge(ctx *core.Ctx, recs []Rec) (bad []int, why []string, err error) {
 	if len(recs) == 0 {
 		return nil, nil, nil
 	}
-	const batch = 20000
+	// one TLC process judges about 30000 records per second; few big batches
+	batch := max(20000, (len(recs)+9)/10)
+	if batch > 150000 {
+		batch = 150000
+	}
 	type out struct {
 		Bad []int    `json:"bad"`
 		Why []string `json:"why"`
@@ -430,7 +441,12 @@ func conclude(ctx *core.Ctx, pl *plan, pool *Pool, results map[string]*Result, r
 
 	if len(unreproduced) > 0 {
 		sort.Strings(unreproduced)
-		return core.Infra("%d rejected record classes did not reproduce in a fresh worker (not counted as violations):\n  %s", len(unreproduced), strings.Join(unreproduced, "\n  "))
+		msg := fmt.Sprintf("%d rejected record classes did not reproduce in a fresh worker (not counted as violations):\n  %s", len(unreproduced), strings.Join(unreproduced, "\n  "))
+		if ctx.Violations() == 0 {
+			return core.Infra("%s", msg)
+		}
+		ctx.Logf("note: %s", msg)
+		ctx.Ev.Set("unreproduced_signals", len(unreproduced))
 	}
 	nm := len(mismatches)
 	if nm > 0 {
